@@ -40,6 +40,7 @@ struct Op {
     int fail_mode = 0;            // 0 once, 1 from k on, 2 set
     unsigned long long fail_set = 0;
     int lose = 0;                 // after this op: source_loss for object `a` (1) - C12
+    int keep = 0;                 // in-place op: if an injected failure makes it fail, the caller keeps using the object (no cleanup) - C11 pool
     int task = 0;                 // C20: task that runs this op (0 = main/setup phase)
     // query list model for OP_MKLIST: keys/values; value "\x01NULL" marker handled via has_value
     std::vector<std::string> keys, values; std::vector<int> has_value;
